@@ -367,9 +367,17 @@ pub fn seq_phases(prop: &str, tier: &str) -> Vec<Phase> {
                 vec!["append", "append", "append", "flush", "truncate_last", "truncate_last", "append_t+1"],
                 vec!["append", "append_t+2", "append", "flush", "truncate_last", "truncate_last", "append_t+1", "append"],
             ];
+            // the same start states with a drain after every operation
+            let mut d = r.clone();
+            d.oracles.drain_each = true;
+            d.cfgs = vec![Cfg::records(3).with_cache(Some(2), None), Cfg::records(3).with_cache(None, None), Cfg::records(3).with_cache(Some(0), Some(5))];
+            let mut d0 = spec(prop, Alpha::Core, if thorough { 5 } else { 3 }, d.cfgs.clone(), d.oracles.clone(), if thorough { 900 } else { 30 });
+            d0.oracles.drain_each = true;
             vec![
                 Phase { name: "core alphabet + refused calls under every cache limit (eager worker)", spec: s },
                 Phase { name: "from start states with re-appended entries and an advanced boundary", spec: r },
+                Phase { name: "the same start states, evictable entries drained after every operation", spec: d },
+                Phase { name: "core alphabet, drained after every operation", spec: d0 },
             ]
         }
         "C16" => {
